@@ -530,6 +530,7 @@ func (d *badgerNodeDB) Finalize(roots []node.Root) error { // nolint: gocyclo
 		if err := batch.Flush(); err != nil {
 			return err
 		}
+		verifhook.Crash("pathbadger.go:Finalize:after-root-delete-flush")
 	}
 
 	// Update last finalized version.
